@@ -95,7 +95,22 @@ def mk_fh(tok):
     if tok.startswith("a:"):
         v = tok[2:]
         return ForecastingHorizon(np.array([] if v == "-" else [int(x) for x in v.split(",")], dtype="int64"), is_relative=False)
-    return {"dup": [1, 2, 2], "empty": [], "frac": [1, 2.5], "str": "abc", "float": 1.0}[tok]
+    global _FH_FORM
+    _FH_FORM = (_FH_FORM + 1) % 3
+    if tok == "dup":           # a duplicate step, as list / array / pandas index, adjacent or not
+        return [[1, 2, 2], np.array([2, 1, 2]), pd.Index([1, 2, 2])][_FH_FORM]
+    if tok == "empty":
+        return [[], np.array([], dtype="int64"), pd.Index(np.array([], dtype="int64"))][_FH_FORM]
+    if tok == "frac":
+        return [[1, 2.5], np.array([1.0, 2.5]), [0.5]][_FH_FORM]
+    return {"str": "abc", "float": 1.0}[tok]
+
+
+_FH_FORM = 0
+
+
+def _unused():
+    return None
 
 
 def mk_int(tok):
